@@ -69,7 +69,8 @@ def createOutsidePackageClass (safe : Bool) (classPath : String) (created : List
     let modulePath := joinWith "/" pathPartsL
     let first := !created.contains modulePath
     let created' := if first then created ++ [modulePath] else created
-    let file := joinWith "/" (pathParts modulePath ++ [moduleName ++ ".sdsstub"])
+    -- like module stubs, the file name has no leading underscores
+    let file := joinWith "/" (pathParts modulePath ++ [pyLstrip moduleName "_" ++ ".sdsstub"])
     if existing.contains file && !first then
       .ok ({ path := file, mode := .append, text := outsideClassText className safe }, created')
     else
